@@ -44,7 +44,8 @@ PROBES = {'C14': ['target_without_source_in_range', 'rebind_other_size', 'set_po
                   'property_missing_in_some_array', 'interpolate_after_other_property', 'h_increased_then_update', 'periodic_domain',
                   'order1_repeated', 'order1_3d', 'auto_grid', 'gradient_component', 'integer_typed_targets', 'via_sph_evaluator',
                   'evaluator_sources_replaced', 'evaluator_target_replaced', 'targets_2d_C', 'targets_2d_F', 'zero_coordinates_left_out',
-                  'only_z_given', 'flat_array_listed_last', 'second_interpolator_alive']}
+                  'only_z_given', 'flat_array_listed_last', 'second_interpolator_alive', 'rebound_to_the_original_array_objects',
+                  'update_without_domain_update']}
 
 
 def prepare(prop, tier):
@@ -166,6 +167,9 @@ def gen(t, prop, tier):
             ops.append(['set_values', t.int(0, narr - 1), t.int(1, 9)])
         elif k == 'rebind':
             ops.append(['rebind', make_arrays(t.int(1, 5))])
+            if t.bool(0.4):
+                ops.append(['interp', 'f', 0])
+                ops.append(['rebind_back'])     # back to the array objects the interpolator was built with
         else:
             tg = make_targets()
             if tg is not None:
@@ -296,6 +300,7 @@ def execute(sc, prop):
             s.update(sig)
             viol.append(dict(invariant=inv, detail=detail, sig=s))
     arrays = _mk_arrays(specs, dim)
+    orig_arrays = arrays
     # the interpolator derives its dimension from the extent of the sources
     ext = [max(float(pa.x.max()) for pa in arrays) - min(float(pa.x.min()) for pa in arrays),
            max(float(pa.y.max()) for pa in arrays) - min(float(pa.y.min()) for pa in arrays),
@@ -670,7 +675,11 @@ def execute(sc, prop):
                             nv = min(max(nv, 0.0), L)
                         arr[i] = nv
                 linear_ok[0] = False
-                if len(op) < 4 or op[3]:
+                if not per and via == 'interp' and len(op[2]) % 2 == 0:
+                    # without a periodic or mirror domain the domain update is a no-op and may be left out
+                    interp.update(update_domain=False) if len(op[2]) % 4 == 0 else interp.update(False)
+                    probe('update_without_domain_update')
+                elif len(op) < 4 or op[3]:
                     interp.update()
                 else:
                     # particles moved but the user did not call update(): the next result is unspecified; re-synchronise
@@ -720,6 +729,13 @@ def execute(sc, prop):
                 arrays = new
                 linear_ok[0] = (method == 'order1')
                 rebound = True
+            elif k == 'rebind_back':
+                if arrays is orig_arrays:
+                    continue
+                interp.update_particle_arrays(orig_arrays)
+                arrays = orig_arrays
+                linear_ok[0] = False
+                probe('rebound_to_the_original_array_objects')
             elif k == 'set_points':
                 tg = tgt(op[1])
                 if via == 'interp':
